@@ -134,7 +134,7 @@ pub(crate) fn stub_clear_mac_commands(u: &mut Uplink, retain_acks: bool) {
     }
 }
 
-// @verif props=C08,C04 obligation=Uplink::clear_mac_commands.contract[<=1cmd] label=bounded(1-command) tier=quick bound="queues of 0 or 1 whole uplink command (all 11 kind sequences), payload bytes symbolic"
+// @verif props=C08,C04,C12 obligation=Uplink::clear_mac_commands.contract[<=1cmd] label=bounded(1-command) tier=quick bound="queues of 0 or 1 whole uplink command (all 11 kind sequences), payload bytes symbolic"
 #[kani::proof]
 #[kani::unwind(17)]
 fn c08_clear_mac_commands_singles() {
